@@ -1,10 +1,76 @@
 (* C07 — C++ framer dispatches exactly the valid messages, for any chunking and capacity.
-   Property theorems only; each is closed by [exact <lemma>] and followed by Print Assumptions. *)
+   Property theorems only; each is closed by [exact <lemma>] and followed by Print Assumptions.
+   MODEL: Models/FramerCoreM.v (SetBuffer/Reset/OnData/Resync) + Models/CppFramerM.v (OnByte, CalculateCRC),
+   every buffer access through checked accessors (outcomes OobRead / OobWrite), uint32 arithmetic with the
+   wrap written in, the Resync loop on explicit fuel (outcome OutOfFuel).
+   SPEC: Base/Scan.scan with the eager FusionEngine judge, reserved bytes zero, payload <= usable capacity - 24. *)
 From Coq Require Import NArith ZArith List Bool.
-From FEC Require Import Generated.FEConsts Generated.CppFramerConsts Base.Scan Base.FEFormat Models.FramerCoreM Models.FramerSpecM
-  Models.CppFramerM Proofs.CppFramerP.
+From FEC Require Import Generated.FEConsts Generated.CppFramerConsts Base.Bytes Base.Crc32 Base.Scan Base.FEFormat
+  Models.FramerCoreM Models.FramerSpecM Models.CppFramerM Proofs.CppFramerP Proofs.FramerCoreP Proofs.CppFramerRefineP.
 Import ListNotations.
 Open Scope N_scope.
+
+(* MAIN: for every buffer (user at any address / managed, any capacity), every initial memory content and
+   every history of OnData / Reset / SetBuffer calls on bytes, the model of the repaired code never leaves
+   its buffer and never runs out of fuel (the run is [Ok]), and each call returns the total size of, and
+   makes callbacks for, exactly the messages the left-to-right scan delivers for that call — in order, once
+   each, each passed from buffer index 0 (header followed by the intact payload). *)
+Theorem C07_framer_refines_scan : forall user alloc_addr capacity mem ops,
+  N.of_nat (length mem) = capacity + match user with None => FR_MANAGED_EXTRA | Some _ => 0 end ->
+  Forall op_ok ops ->
+  exists ff, run_ops fframer fe_op (fe_construct user alloc_addr capacity mem) ops =
+             Ok (map fe_out (spec_run judge_fe_cap FR_HEADER_SIZE FR_CLAMP (fe_spec_construct user alloc_addr capacity) ops), ff).
+Proof. exact fe_refines_scan_top. Qed.
+Print Assumptions C07_framer_refines_scan.
+
+(* ... in particular it never reads or writes outside its buffer, for all streams, chunkings, capacities and
+   alignments (reads of the caller's bytes are by structural recursion over the chunk) *)
+Theorem C07_framer_no_oob : forall user alloc_addr capacity mem ops,
+  N.of_nat (length mem) = capacity + match user with None => FR_MANAGED_EXTRA | Some _ => 0 end ->
+  Forall op_ok ops ->
+  match run_ops fframer fe_op (fe_construct user alloc_addr capacity mem) ops with
+  | Ok _ => True | OobRead _ _ => False | OobWrite _ _ => False | OutOfFuel => False end.
+Proof. exact fe_no_oob_top. Qed.
+Print Assumptions C07_framer_no_oob.
+
+(* Any division of a stream into OnData() calls: the callbacks, concatenated, are the messages of ONE scan
+   of the whole stream, and the return values add up to their total size. *)
+Theorem C07_stream_exact_any_chunking : forall user alloc_addr capacity mem cap chunks,
+  N.of_nat (length mem) = capacity + match user with None => FR_MANAGED_EXTRA | Some _ => 0 end ->
+  sp_cap (fe_spec_construct user alloc_addr capacity) = Some cap ->
+  Forall bytes_lt256 chunks ->
+  exists outs ff, run_ops fframer fe_op (fe_construct user alloc_addr capacity mem) (map OpData chunks) = Ok (outs, ff) /\
+    concat (map snd outs) = map fe_event_of (fst (scan (judge_fe_cap cap) 0 (concat chunks))) /\
+    fold_right N.add 0 (map fst outs) = frames_total (fst (scan (judge_fe_cap cap) 0 (concat chunks))).
+Proof. exact fe_stream_exact. Qed.
+Print Assumptions C07_stream_exact_any_chunking.
+
+(* "frames the same messages as the Python decoder configured with the equivalent size limit": the eager judge
+   of the byte-wise framer and the lazy judge of the Python decoder (C04's SPEC, max_payload_len_bytes =
+   capacity - 24) accept the same messages on every stream. *)
+Theorem C07_framer_equiv_python : forall cap l,
+  map snd (fst (scan (judge_fe_cap cap) 0 l)) = map snd (fst (scan (judge_py_cap cap) 0 l)).
+Proof. exact fe_equiv_python_top. Qed.
+Print Assumptions C07_framer_equiv_python.
+
+(* What the scan accepts is what the property text lists. *)
+Theorem C07_accept_means : forall cap l n, judge_fe_cap cap l = Accept n ->
+  let h := parse_header (firstn HEADER_SIZE l) in
+  (HEADER_SIZE <= length l)%nat /\ h_sync0 h = SYNC0 /\ h_sync1 h = SYNC1 /\ h_reserved h = 0 /\
+  h_psize h <= cap - FR_HEADER_SIZE /\ n = (HEADER_SIZE + N.to_nat (h_psize h))%nat /\ (n <= length l)%nat /\
+  crc32 (crc_region l n) = h_crc h.
+Proof. exact fe_accept_means. Qed.
+Print Assumptions C07_accept_means.
+
+(* The base the model uses is the first 4-byte aligned address of the caller's buffer, and the usable capacity
+   of the SPEC is what is left from there; a buffer with fewer than 24 usable bytes frames nothing. *)
+Theorem C07_aligned_base_and_usable_capacity : forall a capacity,
+  24 <= capacity ->
+  (a + (4 - a mod 4) mod 4) mod 4 = 0 /\
+  sp_cap (fe_spec_construct (Some a) 0 capacity) =
+    (let c := N.min capacity FR_CLAMP - (4 - a mod 4) mod 4 in if c <? 24 then None else Some c).
+Proof. exact fe_aligned_base_and_usable_capacity. Qed.
+Print Assumptions C07_aligned_base_and_usable_capacity.
 
 Theorem C07_reset_is_fresh : forall f : fframer,
   let c := f_core (fe_reset f) in
@@ -15,16 +81,26 @@ Print Assumptions C07_reset_is_fresh.
 
 (* "never writes outside its buffer" is FALSE of the code as it was before the two repairs: two concrete
    histories on which the faithful model of that code writes one byte past capacity_bytes_ (both replayed on
-   the implementation under AddressSanitizer: heap-buffer-overflow WRITE in OnData). *)
+   the implementation under AddressSanitizer: heap-buffer-overflow WRITE in OnData; fixed by 780c743 and
+   2aa3024).  The same inputs are harmless for the repaired model (Proofs/CppFramerP.v). *)
 Theorem C07_framer_no_oob_legacy_refuted :
   (exists user cap mem stream, N.of_nat (length mem) = cap /\ 24 <= cap /\
      exists i n, fe_legacy_on_data (fe_legacy_construct (Some user) 0 cap mem) stream = OobWrite i n) /\
   (let f := fe_legacy_construct (Some 0) 0 64 (repeat 0 64) in
    c_cap (f_core f) = 64 /\ fe_legacy_on_data f w2_stream = OobWrite 64 64).
-Proof.
-  split.
-  - exists 1, 24, (repeat 0 24), w1_header. split; [reflexivity|]. split; [discriminate|].
-    exists 21, 21. exact (proj2 (proj2 legacy_oob_after_alignment)).
-  - exact legacy_oob_after_sync_run.
-Qed.
+Proof. exact legacy_no_oob_refuted. Qed.
 Print Assumptions C07_framer_no_oob_legacy_refuted.
+
+(* Non-vacuity: a 27-byte user buffer at an address = 3 mod 4 (26 usable bytes), two stray sync bytes, then a
+   26-byte message (payload 01 02, CRC 0xA3EDBD67) split over two calls, then Reset: the second call
+   dispatches it. *)
+Example C07_nonvacuous :
+  let ops := [OpData ([46; 46] ++ firstn 10 ex_msg); OpData (skipn 10 ex_msg ++ [46]); OpReset] in
+  Forall op_ok ops /\ N.of_nat (length (repeat 0 27)) = 27 /\
+  sp_cap (fe_spec_construct (Some 3) 0 27) = Some 26 /\
+  exists ff, run_ops fframer fe_op (fe_construct (Some 3) 0 27 (repeat 0 27)) ops =
+             Ok ([(0, []); (26, [(0, ex_msg)]); (0, [])], ff).
+Proof.
+  split; [repeat constructor|]. split; [reflexivity|]. split; [reflexivity|].
+  eexists. vm_compute. reflexivity.
+Qed.
